@@ -18,7 +18,8 @@ RULE = ("structured colour descriptions (id from a dotted pool incl. built-in id
         "with SYNTAX_DEFAULTS / PARENT_PALETTES, registered by instantiation or register_in_colors_conf), plus ignored "
         "re-declarations of already configured ids; a second run uses another order/batching; no_color configs; the global "
         "configuration with the synced global palette. Non-trivial = a reference chain of length >=2 containing an item that "
-        "was registered before its parent; distinct by (set, split) hash.")
+        "was registered before its parent; distinct by (set, split) hash."
+        " Also: a compound palette (CompoundPalette subclass) among the views, and palette classes that become known to the configuration as its sub-palettes (get_sub_palette).")
 ASSUMPTIONS = [
     "acyclic by construction (cycles trip an assertion in the package and are outside the quantifier)",
     "ids are unique within the set except generated re-declarations of ids that are already configured (first one wins)",
@@ -173,6 +174,7 @@ def run_plan(C, case, plan, use_global, findings, tag):
     if use_global:
         C.set_global_colors_config(conf)
     acc_cls = None
+    comp_cls = [None]
     pal_classes = []
 
     def check_all(step_label):
@@ -181,16 +183,20 @@ def run_plan(C, case, plan, use_global, findings, tag):
         if acc_cls is None:
             ns = {"a%d" % n: C.ConfColor(i) for n, i in enumerate(universe)}
             acc_cls = type(C.Palette)("AccPalette", (C.Palette,), ns)
+            # ... and a compound palette (a palette that hands out sub-palettes) with the same accessors
+            comp_cls[0] = type(C.CompoundPalette)("AccCompound", (C.CompoundPalette,), dict(ns, SUB_PALETTES_MAP={}))
         try:
             gp = conf.get_palette()
             acc = acc_cls(colors_conf=conf, no_color=False)
+            comp = comp_cls[0](colors_conf=conf, no_color=False)
         except Exception as e:   # noqa
             findings.append(("palette_request_raises_" + type(e).__name__, f"{tag} {step_label}: {e}"))
             return False
         for n, i in enumerate(universe):
             want = expected_state(model, i, no_color)
             views = [("config.get_color", lambda: conf.get_color(i)), ("config.get_palette()[id]", lambda: gp[i]),
-                     ("fresh Palette accessor", lambda: getattr(acc, "a%d" % n))]
+                     ("fresh Palette accessor", lambda: getattr(acc, "a%d" % n)),
+                     ("compound palette accessor", lambda: getattr(comp, "a%d" % n))]
             if use_global:
                 views.append(("global_palette[id]", lambda: C.global_palette[i]))
             std = {"TEXT": "text", "NAME": "name", "KEYWORD": "keyword", "OK": "ok", "WARN": "warn", "ERROR": "error"}
@@ -273,6 +279,12 @@ def run_plan(C, case, plan, use_global, findings, tag):
                     reg_model(cls)
                 elif step["kind"] == "palette_inst":
                     cls(colors_conf=conf)
+                    reg_model(cls)
+                elif step["kind"] == "palette_sub":
+                    # the class becomes known to the configuration as a sub-palette of a compound palette
+                    if comp_cls[0] is None:
+                        check_all(label + " (before)")
+                    comp_cls[0](colors_conf=conf, no_color=False).get_sub_palette(cls)
                     reg_model(cls)
                 else:
                     deferred.append(cls)     # registered later through a child's PARENT_PALETTES or at the end
@@ -382,7 +394,7 @@ def st_case(draw):
         while rest:
             take = draw(st.integers(1, len(rest)))
             chunk, rest = rest[:take], rest[take:]
-            steps.append({"kind": draw(st.sampled_from(["items", "items", "palette", "palette_inst", "palette_defer"])), "idx": chunk,
+            steps.append({"kind": draw(st.sampled_from(["items", "items", "palette", "palette_inst", "palette_defer", "palette_sub"])), "idx": chunk,
                           "nested": draw(st.booleans()), "parents": draw(st.lists(st.integers(0, 5), max_size=2)),
                           "dups": []})
             if len(steps) >= 4 and rest:
